@@ -1,8 +1,9 @@
 From Verif.Base Require Import Bytes GoNum Ord.
+From Verif.Eco Require Import VLayer VLayerFacts.
 From Verif.Eco.Cran Require Import Version.
 
+Lemma cmp_core_tp : TotalPreorder cmp_core.
+Proof. apply TP_lex_short, TP_Z. Qed.
+
 Lemma cmp_tp : TotalPreorder cmp.
-Proof.
-  change cmp with (cmp_on comps (lex_short Z.compare)).
-  apply TP_on, TP_lex_short, TP_Z.
-Qed.
+Proof. apply VLayerFacts.cmp_tp, cmp_core_tp. Qed.
